@@ -27,7 +27,8 @@ ASSUMPTIONS = [
     "on SG_IO a non-GOOD, non-CHECK-CONDITION status is only required to raise *some* exception (the binding does not tell the library the byte)",
     "sense payloads in this check are current fixed (70h) and descriptor (72h) format; the other formats are C08's",
 ]
-REQUIRED_PROBES = ["status", "cc_raised_ok", "named_status_ok", "command_object_reused"]
+ALSO_OPTIMIZED = True      # the whole check is repeated under `python -O` (a status guard written as an assert vanishes there)
+REQUIRED_PROBES = ["status", "cc_raised_ok", "named_status_ok", "command_object_reused", "call_inside_with"]
 
 NO_DECODE = {"testunitready", "write10", "write12", "write16", "writesame10", "synchronizecache10", "synchronizecache16",
              "preventallowmediumremoval", "movemedium", "positiontoelement", "initializeelementstatus", "read10", "read12", "read16"}
@@ -57,8 +58,8 @@ def gen_sense(rng):
 def gen_fault(rng):
     r = rng.random()
     if r < 0.04:
-        # CHECK CONDITION for which the transport has no sense data (autosense failed)
-        return {"kind": "sense_payload", "sense": "", "no_sense": True}
+        # CHECK CONDITION for which the transport has no sense data (autosense failed): no buffer at all, or an empty one
+        return {"kind": "sense_payload", "sense": "", "no_sense": rng.random() < 0.6}
     if r < 0.12:
         return {"kind": "ioctl_error", "errno": rng.choice([5, 19, 16])}
     if r < 0.55:
@@ -86,6 +87,12 @@ def gen_op(rng, cfg, p_fault):
         m = rng.choice(F.methods_for(kind))
         op.update(via="facade", **F.gen_call(rng, m, cfg))
     op["fault"] = gen_fault(rng) if rng.random() < p_fault else None
+    if op.get("reuse") and rng.random() < 0.3:
+        # the retry of a failed command fails again, this time without sense data
+        op["fault"] = {"kind": "sense_payload", "sense": "", "no_sense": rng.random() < 0.5}
+    if rng.random() < 0.08:
+        # the application makes the call inside `with device:` or `with facade:`; an error must leave the block
+        op["in_with"] = rng.choice(["device", "facade"])
     if op["fault"] and rng.random() < 0.15:
         # a second fault for the case that the library issues another command inside this call (e.g. a retry)
         op["fault2"] = gen_fault(rng) if rng.random() < 0.7 else dict(op["fault"])
@@ -253,6 +260,19 @@ def judge(dev, op, kind, val, deliveries, cmd, V, where):
         elif not (isinstance(cc_cls, type) and isinstance(val, cc_cls)):
             V.append(dict(oracle="C07.cc-wrong-exception", where=where, detail="no-sense/" + type(val).__name__,
                           expected="%s.CheckCondition (the target reported CHECK CONDITION; no sense data was available)" % dev_cls.__name__, actual=repr(val)[:120]))
+        else:
+            # this failure came without sense data: it must not be reported with the sense of an earlier failure of the same command object
+            prev = op.get("_prev_handed")
+            if prev:
+                pe = S.decode(prev)
+                try:
+                    got = (val.data.get("sense_key") if isinstance(getattr(val, "data", None), dict) else None, val.asc, val.ascq)
+                except Exception:  # noqa
+                    got = None
+                if pe["fmt"] and got == (pe["key"], pe["asc"], pe["ascq"]) and any(got):
+                    V.append(dict(oracle="C07.cc-stale-sense", where=where, detail="no-sense-after-sense",
+                                  expected="a CheckCondition without decoded sense (none was delivered with this failure)",
+                                  actual="key/asc/ascq %r - the sense data of the command object's previous execution" % (got,)))
         return
     # any other non-GOOD completion (incl. CHECK CONDITION without sense on SG_IO, where the binding reports only an unspecified error)
     if kind == "ok":
@@ -285,8 +305,9 @@ def execute(prog):
     V = []
     devs = {}
     scsis = {}
+    lus = {}
     for n, t in enumerate(TRANSPORTS):
-        lu = worlds.make_lu(cfg, ident=n + 1)
+        lu = lus[t] = worlds.make_lu(cfg, ident=n + 1)
         devs[t] = worlds.open_device(t, lu)
         af = prog["config"]["attach_fault"].get(t)
         if af:
@@ -318,20 +339,39 @@ def execute(prog):
             prev = last_direct.get(t)
             if op.get("reuse") and prev is not None and prev[0] == op["m"]:
                 cmd = prev[1]
+                op = dict(op, _prev_handed=prev[2])
                 WORLD.probe("command_object_reused")
             else:
                 cmd = _build_direct(scsi, dev, op)
-            last_direct[t] = (op["m"], cmd)
-            kind, val = worlds.outcome_of(lambda: dev.execute(cmd, en_raw_sense=op["raw"]) if op["raw"] else dev.execute(cmd))
+            last_direct[t] = [op["m"], cmd, None]
+            call = (lambda: dev.execute(cmd, en_raw_sense=op["raw"])) if op["raw"] else (lambda: dev.execute(cmd))
         else:
             args = F.real_args(op["args"])
             kw = F.real_args(op["kw"])
-            kind, val = worlds.outcome_of(lambda: getattr(scsi, op["m"])(*args, **kw))
+            call = lambda: getattr(scsi, op["m"])(*args, **kw)
+        if op.get("in_with"):
+            WORLD.probe("call_inside_with")
+            mgr = dev if op["in_with"] == "device" else scsi
+
+            def in_block(call=call, mgr=mgr):
+                with mgr:
+                    return call()
+            kind, val = worlds.outcome_of(in_block)
+        else:
+            kind, val = worlds.outcome_of(call)
         where = "%s/%s" % (t, op["via"])
         judge(dev, op, kind, val, WORLD.deliveries[mark:], cmd, V, where)
+        if op["via"] == "direct" and t in last_direct and WORLD.deliveries[mark:]:
+            last_direct[t][2] = WORLD.deliveries[-1].get("handed") or last_direct[t][2]
         out = "ok" if kind == "ok" else type(val).__name__
         WORLD.ev("op.end", i=i, outcome=out)
         summary.append(out)
+        if op.get("in_with"):
+            # leaving the block closed the device: the application opens it again for what follows (fault free)
+            WORLD.armed.clear()
+            devs[t] = worlds.open_device(t, lus[t])
+            scsis[t] = SCSI(devs[t], blocksize=cfg["bs"])
+            last_direct.pop(t, None)
     stats = {"events": len(WORLD.events)}
     for k, v in WORLD.fired.items():
         stats["fired." + k] = v
